@@ -62,6 +62,11 @@ class ModuleInfo:
         self.tree = tree
         self.globals = {}
         self.lines = src.splitlines()
+        self.imported_names = set()
+        for n in ast.walk(tree):
+            if isinstance(n, (ast.Import, ast.ImportFrom)):
+                for a in n.names:
+                    self.imported_names.add((a.asname or a.name).split(".")[0])
 
 
 def dump_constants(repo=REPO):
@@ -282,6 +287,7 @@ class World:
             return r
         ext = {
             ("datetime", "datetime"): DATETIME_CLASS,
+            ("datetime", "timedelta"): Builtin("timedelta", models.make_timedelta),
             ("dateutil.relativedelta", "relativedelta"): Builtin("relativedelta", models.make_relativedelta),
             ("dateutil.rrule", "rrule"): Builtin("rrule", models.make_rrule),
             ("dateutil.rrule", "MONTHLY"): 1,
